@@ -97,6 +97,17 @@ def path_strings(shape, node):
   return out
 
 
+def _can_be_proxied(exc):
+  """Independent of fiddle: can a subclass of type(exc) with its own two-argument __init__ be
+  created and instantiated with (exception, message)?"""
+  try:
+    sub = type('Probe', (type(exc),), {'__init__': lambda self, a, b: None})
+    sub(exc, 'message')
+    return True
+  except Exception:   # pylint: disable=broad-except
+    return False
+
+
 def check_case(args):
   shape, fail_node, exc_name, bad_repr = args
   viols = []
@@ -130,6 +141,10 @@ def check_case(args):
       except Exception as e2:   # pylint: disable=broad-except
         msg, omsg = None, None
         bad(f'str() of the escaping exception raised {type(e2).__name__}')
+      if (msg is not None and isinstance(original, Exception) and not bad_repr
+          and _can_be_proxied(original) and 'Fiddle context' not in msg):
+        bad(f'the escaping {type(escaped).__name__} names no path at all (no Fiddle context in its message '
+            f'{msg[:80]!r}) although a subclass instance of its class can be made')
       if msg is not None and escaped is not original:
         if not msg.startswith(omsg):
           bad(f'message {msg[:60]!r} does not begin with the original message {omsg!r}')
